@@ -1324,7 +1324,8 @@ def _dict_to_BlockSeries(
 
     if isinstance(h_0, np.ndarray):
         if is_diagonal(h_0, atol):
-            operator[zeroth_order] = sparse.csr_array(operator[zeroth_order])
+            # Keep the diagonal only: off-diagonal entries within atol are zeros.
+            operator[zeroth_order] = sparse.csr_array(np.diag(h_0.diagonal()))
     elif sparse.issparse(h_0):  # Normalize sparse matrices for solve_sylvester
         operator[zeroth_order] = sparse.csr_array(operator[zeroth_order])
 
